@@ -10,6 +10,7 @@ Nothing in here knows about MyST-Parser.
 from __future__ import annotations
 
 import os
+import signal
 import time
 
 import z3
@@ -39,6 +40,10 @@ class Deadline(EngineSignal):
 
 
 ENGINE: "Engine | None" = None
+
+
+def _watchdog(signum, frame):
+    raise StepBudget()
 
 
 def engine() -> "Engine":
@@ -384,7 +389,10 @@ class PathStop(EngineSignal):
 class Engine:
     """One exploration task = one decision (sub)tree under a fixed prefix."""
 
-    def __init__(self, max_forks=4000, concretize_cap=64, solver_timeout_ms=20000):
+    def __init__(self, max_forks=4000, concretize_cap=64, solver_timeout_ms=20000, max_steps=60000, path_timeout=30):
+        self.max_steps = max_steps
+        self.steps = 0
+        self.path_timeout = path_timeout
         self.solver = z3.Solver()
         self.solver.set("timeout", solver_timeout_ms)
         # trace entries: [expr, taken, pending_other(bool), pushed(bool), other_model, payload]
@@ -401,6 +409,7 @@ class Engine:
         self.notes = {}  # free-form counters for the harness (non-triviality etc.)
         self.unsupported_reasons = {}
         self.deadline = None
+        self.hard_deadline = None
         self.prefix = ()
         self.base_checked = False
         # interval-domain pre-solver for unary code-point atoms (see branch)
@@ -472,6 +481,11 @@ class Engine:
     def branch(self, e, assume=False, payload=None) -> bool:
         if isinstance(e, bool):
             return e
+        self.steps += 1
+        if self.steps > self.max_steps:
+            raise StepBudget()
+        if (self.steps & 1023) == 0 and self.hard_deadline is not None and time.time() > self.hard_deadline:
+            raise Deadline()
         eid = e.get_id()
         v = self.known.get(eid)
         if v is not None:
@@ -520,7 +534,7 @@ class Engine:
         self.forks += 1
         if self.forks > self.max_forks:
             raise StepBudget()
-        if self.deadline is not None and (self.forks & 63) == 0 and time.time() > self.deadline:
+        if self.hard_deadline is not None and (self.forks & 63) == 0 and time.time() > self.hard_deadline:
             raise Deadline()
         if d < len(self.prefix):
             # following a prefix handed over by the coordinator
@@ -677,7 +691,7 @@ class Engine:
         return v
 
     # -- exploration
-    def explore(self, body, prefix=(), deadline=None, max_paths=None, on_path=None):
+    def explore(self, body, prefix=(), deadline=None, max_paths=None, on_path=None, hard_deadline=None):
         """Run `body` once per path under `prefix`.
 
         Returns (exhausted: bool, leftover_prefixes: list[tuple]).
@@ -688,6 +702,7 @@ class Engine:
         ENGINE = self
         self.prefix = tuple(prefix)
         self.deadline = deadline
+        self.hard_deadline = hard_deadline
         if not self.base_checked:
             r = self._check()
             if r != z3.sat:
@@ -698,12 +713,20 @@ class Engine:
         while True:
             self.depth = 0
             self.forks = 0
+            self.steps = 0
             self.known = {}
             self.dom = dict(self.base_dom)
             self.tainted = set(self.base_tainted)
             kind, val = "ok", None
+            if self.path_timeout:
+                signal.signal(signal.SIGALRM, _watchdog)
+                signal.setitimer(signal.ITIMER_REAL, self.path_timeout)
             try:
-                val = body()
+                try:
+                    val = body()
+                finally:
+                    if self.path_timeout:
+                        signal.setitimer(signal.ITIMER_REAL, 0)
             except PathStop:
                 kind = "stop"
             except PathAbort:
